@@ -701,8 +701,23 @@ for _name, _fn in [("add", S_add), ("sub", S_sub), ("mul", S_mul), ("floordiv", 
     _f, _r = _bin(_fn)
     setattr(SV, f"__{_name}__", _f)
     setattr(SV, f"__r{_name}__", _r)
+def _cmp_op(fn, name):
+    f = _bin(fn)[0]
+
+    def g(a, b):
+        if b is None or isinstance(b, (str, bytes)) and not isinstance(b, SV):
+            # like a Python number: equal to no such object, unordered with it
+            if name == "eq":
+                return False
+            if name == "ne":
+                return True
+            return NotImplemented
+        return f(a, b)
+    return g
+
+
 for _name, _fn in [("eq", S_eq), ("ne", S_ne), ("lt", S_lt), ("le", S_le), ("gt", S_gt), ("ge", S_ge)]:
-    setattr(SV, f"__{_name}__", _bin(_fn)[0])
+    setattr(SV, f"__{_name}__", _cmp_op(_fn, _name))
 SV.__neg__ = S_neg
 SV.__pos__ = lambda a: a
 SV.__abs__ = S_abs
